@@ -248,6 +248,79 @@ theorem bindDims_names (ds : List Name) (dims : List Nat) (env : Env) (s : St) (
       | exc e s1 => rw [h1] at h; cases h
       | stop k s1 => rw [h1] at h; cases h
 
+theorem bindDimsArr_rn (ds : List Name) (l : Loc) (env : Env) :
+    bindDimsArr (rnNames ν env.length ds) l (rnEnv ν env) = M.map (rnEnv ν) (bindDimsArr ds l env) := by
+  funext s
+  simp only [bindDimsArr, M.map, bind_eq, M.bind]
+  cases arrDims l s with
+  | ok dims s2 =>
+    simp only
+    rw [bindDims_rn]
+    simp only [M.map, bind_eq, M.bind]
+  | exc e s2 => rfl
+  | stop k s2 => rfl
+
+theorem bindDimsCells_rn (ds : List Name) (m : M (List Loc)) (env : Env) :
+    bindDimsCells (rnNames ν env.length ds) m (rnEnv ν env) = M.map (rnEnv ν) (bindDimsCells ds m env) := by
+  funext s
+  simp only [bindDimsCells, M.map, bind_eq, M.bind]
+  cases m s with
+  | ok cells s2 => simp only [pure, M.pure, bindNames_rn]
+  | exc e s2 => rfl
+  | stop k s2 => rfl
+
+theorem bindDimsOf_rn (ds : List Name) (l : Loc) (env : Env) :
+    bindDimsOf (rnNames ν env.length ds) l (rnEnv ν env) = M.map (rnEnv ν) (bindDimsOf ds l env) := by
+  funext s
+  simp only [bindDimsOf, M.map, bind_eq, M.bind]
+  cases load l s with
+  | ok v s1 =>
+    simp only
+    split
+    · rw [bindDimsCells_rn]; simp only [M.map, bind_eq, M.bind]
+    · rw [bindDimsCells_rn]; simp only [M.map, bind_eq, M.bind]
+    · rfl
+    · rfl
+    · rw [bindDimsArr_rn]; simp only [M.map, bind_eq, M.bind]
+  | exc e s1 => rfl
+  | stop k s1 => rfl
+
+theorem bindDimsArr_names (ds : List Name) (l : Loc) (env : Env) (s : St) (env' : Env) (s' : St)
+    (h : bindDimsArr ds l env s = .ok env' s') : names env' = ds.reverse ++ names env := by
+  simp only [bindDimsArr, bind_eq, M.bind] at h
+  cases h2 : arrDims l s with
+  | ok dims s2 => rw [h2] at h; exact bindDims_names _ _ _ _ _ _ h
+  | exc e s2 => rw [h2] at h; cases h
+  | stop k s2 => rw [h2] at h; cases h
+
+theorem bindDimsCells_names (ds : List Name) (m : M (List Loc)) (env : Env) (s : St) (env' : Env) (s' : St)
+    (h : bindDimsCells ds m env s = .ok env' s') : names env' = ds.reverse ++ names env := by
+  simp only [bindDimsCells, bind_eq, M.bind] at h
+  cases h2 : m s with
+  | ok cells s2 =>
+    rw [h2] at h
+    simp only [pure, M.pure] at h
+    injection h with h3 h4
+    rw [← h3, names_bindNames]
+  | exc e s2 => rw [h2] at h; cases h
+  | stop k s2 => rw [h2] at h; cases h
+
+theorem bindDimsOf_names (ds : List Name) (l : Loc) (env : Env) (s : St) (env' : Env) (s' : St)
+    (h : bindDimsOf ds l env s = .ok env' s') : names env' = ds.reverse ++ names env := by
+  simp only [bindDimsOf, bind_eq, M.bind] at h
+  cases h1 : load l s with
+  | ok v s1 =>
+    rw [h1] at h
+    simp only at h
+    split at h
+    · exact bindDimsCells_names _ _ _ _ _ _ h
+    · exact bindDimsCells_names _ _ _ _ _ _ h
+    · cases h
+    · cases h
+    · exact bindDimsArr_names _ _ _ _ _ _ h
+  | exc e s1 => rw [h1] at h; cases h
+  | stop k s1 => rw [h1] at h; cases h
+
 theorem rnNames_isEmpty (d : Nat) (xs : List Name) : (rnNames ν d xs).isEmpty = xs.isEmpty := by
   cases xs <;> rfl
 
@@ -285,31 +358,26 @@ theorem bindParams_rn (ps : List Param) (args : List Loc) (env : Env) :
           simp only [M.map, bind_eq, M.bind]
         · simp only [hd]
           simp only [Bool.false_eq_true, if_false, bind_eq, M.bind]
-          cases h2 : arrDims l' s1 with
-          | ok dims s2 =>
-            simp only
-            have hb := bindDims_rn (ν := ν) p.dims dims ((p.name, l') :: env)
-            rw [rnEnv_cons] at hb
-            simp only [List.length_cons] at hb
-            rw [hb]
+          have hb := bindDimsOf_rn (ν := ν) p.dims l' ((p.name, l') :: env)
+          rw [rnEnv_cons] at hb
+          simp only [List.length_cons] at hb
+          rw [hb]
+          simp only [M.map, bind_eq, M.bind]
+          cases h3 : bindDimsOf p.dims l' ((p.name, l') :: env) s1 with
+          | ok env2 s3 =>
+            simp only [pure, M.pure]
+            have hn := bindDimsOf_names _ _ _ _ _ _ h3
+            have hlen : env2.length = env.length + 1 + p.dims.length := by
+              have := congrArg List.length hn
+              simp at this
+              omega
+            have := ih ls env2
+            rw [hlen] at this
+            rw [this]
             simp only [M.map, bind_eq, M.bind]
-            cases h3 : bindDims p.dims dims ((p.name, l') :: env) s2 with
-            | ok env2 s3 =>
-              simp only [pure, M.pure]
-              have hn := bindDims_names _ _ _ _ _ _ h3
-              have hlen : env2.length = env.length + 1 + p.dims.length := by
-                have := congrArg List.length hn
-                simp at this
-                omega
-              have := ih ls env2
-              rw [hlen] at this
-              rw [this]
-              simp only [M.map, bind_eq, M.bind]
-              cases bindParams ps ls env2 s3 <;> rfl
-            | exc e s3 => rfl
-            | stop k s3 => rfl
-          | exc e s2 => rfl
-          | stop k s2 => rfl
+            cases bindParams ps ls env2 s3 <;> rfl
+          | exc e s3 => rfl
+          | stop k s3 => rfl
       | exc e s1 => rfl
       | stop k s1 => rfl
 
@@ -335,20 +403,14 @@ theorem bindParams_names (ps : List Param) (args : List Loc) (env : Env) (s : St
           rw [ih _ _ _ h]
           simp [paramBinders, hl]
         · simp only [hd, Bool.false_eq_true, if_false, bind_eq, M.bind] at h
-          cases h2 : arrDims l' s1 with
-          | ok dims s2 =>
-            rw [h2] at h
+          cases h3 : bindDimsOf p.dims l' ((p.name, l') :: env) s1 with
+          | ok env2 s3 =>
+            rw [h3] at h
             simp only at h
-            cases h3 : bindDims p.dims dims ((p.name, l') :: env) s2 with
-            | ok env2 s3 =>
-              rw [h3] at h
-              simp only at h
-              rw [ih _ _ _ h, bindDims_names _ _ _ _ _ _ h3]
-              simp [paramBinders]
-            | exc e s3 => rw [h3] at h; cases h
-            | stop k s3 => rw [h3] at h; cases h
-          | exc e s2 => rw [h2] at h; cases h
-          | stop k s2 => rw [h2] at h; cases h
+            rw [ih _ _ _ h, bindDimsOf_names _ _ _ _ _ _ h3]
+            simp [paramBinders]
+          | exc e s3 => rw [h3] at h; cases h
+          | stop k s3 => rw [h3] at h; cases h
       | exc e s1 => rw [h1] at h; cases h
       | stop k s1 => rw [h1] at h; cases h
 
